@@ -45,7 +45,9 @@ Verdicts1(inp, o) ==
         \cup (IF inp = <<>> \/ IsThreePart(o.tp_t, s, s, s) THEN {} ELSE {V("quoteident-three-part", FirstKind(o.tp_t))})
         \cup (IF inp = <<>> \/ NeedsQuotesExact(o.need, o.bare_t, s) THEN {}
               ELSE {V("needsquotes-inexact", IF o.need THEN "true-but-bare-ident" ELSE "false-but-not-ident")})
-      drift ==
+      \* comparison with the transcribed helpers: on short strings only (the transcription appends character by
+      \* character, quadratic in TLC; the property operators above are what decides)
+      drift == IF Len(inp) > 64 THEN {} ELSE
         (IF o.qs = QuoteString(inp) THEN {} ELSE {V("drift:quotestring", "")})
         \cup (IF o.qi = QuoteIdent(<<inp>>) THEN {} ELSE {V("drift:quoteident", "")})
         \cup (IF o.need = IdentNeedsQuotes(inp) THEN {} ELSE {V("drift:needsquotes", "")})
@@ -62,7 +64,7 @@ Runs(r) == <<[inp |-> r.inp, obs |-> r.obs] @@ (IF Has(r, "sweep") THEN [sweep |
 Verdicts(r) ==
   IF ~Has(r, "inp") THEN (IF Has(r.obs, "empty") THEN {} ELSE {V("panic", "sweep")})
   ELSE LET R == Runs(r) IN
-  UNION {{V(v.class, IF Has(R[j], "sweep") THEN v.sig \o " U+" \o ToString(R[j].sweep[1]) ELSE v.sig) : v \in Verdicts1(R[j].inp, R[j].obs)}
+  UNION {{V(v.class, IF Has(R[j], "sweep") THEN v.sig \o " from code point " \o ToString(R[j].sweep[1]) ELSE v.sig) : v \in Verdicts1(R[j].inp, R[j].obs)}
          : j \in 1..Len(R)}
 
 \* non-trivial: the string needs an escape, or quotes as an identifier
